@@ -1078,7 +1078,7 @@ class Lexer:
                         TagToken(
                             type_=TokenType.TAG,
                             start=self.line_start,
-                            stop=self.pos,
+                            stop=match.start(),
                             wc=self.WC_DEFAULT,
                             name=self.tag_name,
                             expression=self.expression,
